@@ -219,8 +219,54 @@ def scn_gradient(T, case):
             T.prove("C02.fixed_variable_entries_are_exactly_zero", T.same(G.weighted_objective[i], 0.0 * x[i]) if T.symbolic else float(G.weighted_objective[i]) == 0.0)
 
 
+# ----------------------------------------------------------------------------------- per-function weight rows (filters mapped to some functions only)
+def cases_rows(tier):
+    for omf, cmf in (([0, 1], [1]), ([1, 0], [-1]), ([-1, 0], [0]), ([0, -1], None)):
+        for both in (True, False):
+            yield "flt=%s,%s/%s" % (omf, cmf, "functions+gradients" if both else "gradients-after-functions"), {"omf": omf, "cmf": cmf, "both": both}
+
+
+def scn_rows(T, case):
+    """Each function's gradient is combined with the weights in force for THAT function (its filter's, or the configured ones)."""
+    R, P, N, J, K = 2, 1, 1, 2, 1
+    cfgw = T.real("weights", (R,), lo=0.001)
+    W = [T.real("W%d" % f, (R,), lo=0.001) for f in range(2)]
+    ow = T.real("objective_weights", (J,))
+    a = T.real("slopes", (R, J + K, N))
+    c0 = T.real("offsets", (R, J + K))
+    x = T.real("x", (N,))
+    S = T.real("samples", (R, P, N))
+    ghosts = [[a[r, j, 0]] for r in range(R) for j in range(J + K)]
+    inv = H.InvertContract(T, ghosts) if T.symbolic else None
+    ch = H.Chain(T, stubs={(MG, "_invert_linear_equations"): inv} if T.symbolic else None)
+
+    def f(v, r, p, k, lo, hi):
+        return T.np.array([a[r, j, 0] * v[0] + c0[r, j] for j in range(lo, hi)])
+
+    sev = H.ScriptedEvaluator(T, ch, lambda v, r, p, k: f(v, r, p, k, 0, J), lambda v, r, p, k: f(v, r, p, k, J, J + K))
+    cfg = H.make_config(T, R, J, K, N, weights=cfgw, ow=ow, P=P, min_success=1, pert_min_success=1, magnitudes=T.const(np.ones(N)),
+                        omap_flt=case["omf"], cmap_flt=case["cmf"])
+    ev = H.make_evaluator(T, ch, cfg, sev, filters=[H.AbstractFilter(W[0]), H.AbstractFilter(W[1])], samplers=[H.FakeSampler(S)])
+    if case["both"]:
+        fres, gres = ev.calculate(x, compute_functions=True, compute_gradients=True)
+    else:
+        ev.calculate(x, compute_functions=True, compute_gradients=False)
+        (gres,) = ev.calculate(x, compute_functions=False, compute_gradients=True)
+    if not T.symbolic:
+        T.assume(all(abs(float(S[r, 0, 0])) > 1e-6 for r in range(R)))
+    G = gres.gradients
+    for kind, cnt, off, fmap, grads in (("objective", J, 0, case["omf"], G.objectives), ("constraint", K, J, case["cmf"], G.constraints)):
+        for jj in range(cnt):
+            fidx = -1 if fmap is None else fmap[jj]
+            w = W[fidx] if fidx >= 0 else cfgw
+            tot = w[0] + w[1]
+            want = T.total([(w[r] / tot) * a[r, off + jj, 0] for r in range(R)])
+            T.prove("C02.rows.%s_gradient_uses_the_weights_in_force_for_that_function" % kind, T.close(grads[jj, 0], want, 1e-7) if not T.symbolic else T.same(grads[jj, 0], want))
+
+
 SCENARIOS = [
     Scenario("gradient_affine", scn_gradient, cases_gradient, {"quick": 10, "thorough": 60}),
+    Scenario("gradient_weight_rows", scn_rows, cases_rows, {"quick": 10, "thorough": 60}),
     Scenario("svd_solve_bounded", scn_svd, cases_svd, {"quick": 30, "thorough": 300}),
 ]
 
